@@ -237,6 +237,15 @@ def install_points():
                           N.receive_dwa: None, N._check_timers: r"send_dwr|PEER_READY_STATES"})
 
 
+def install_points_timer():
+    from dv import sched, simkernel as sk
+    mods = sk.load_node()
+    N, P = mods["node"].Node, mods["peer"].PeerConnection
+    sched.clear()
+    return sched.install({P.dwa_wait_time: None, P.is_waiting_for_dwa: None, P.reset_last_dwa: None, N.receive_dwa: None,
+                          N._check_timers: r"dwa_wait_time|PEER_READY_WAITING_DWA"})
+
+
 def stray_dwa_vs_watchdog(decisions):
     """A DWA (a late or stray one) arrives in the I/O-loop turn in which the idle timer sends the node's DWR.  One
     schedule: afterwards the watchdog still works - with a silent peer the connection is closed with the
@@ -285,6 +294,52 @@ def stray_dwa_vs_watchdog(decisions):
         w.close()
 
 
+def dwa_vs_timer(decisions):
+    """The DWA arrives in the I/O-loop turn in which the timer pass looks at the connection that is waiting for it
+    (1 s after the DWR, DWA timeout 20 s).  One schedule: the connection stays open and ready."""
+    from dv import sched
+    w = W.NodeWorld({"peers": [{"name": "peer1.example", "ip": ["10.1.1.1"]}],
+                     "apps": [{"app_id": 4, "auth": True, "peers": [0], "handler": "answer"}],
+                     "node_timers": {"idle": 2, "dwa": 20, "cer": 30, "cea": 30, "wakeup": 1}})
+    try:
+        w.start()
+        c = w.handshake_in("peer1.example", auth=[4], ip="10.1.1.1", hbh=0x100)
+        io = [t for t in w.k.threads if "_handle_connections" in t.name][0]
+        dwrs = []
+        for _ in range(8):
+            w.k.advance(io.deadline - w.k.now)
+            dwrs = [f for f in c.refresh() if f.is_request and f.code == W.CMD_DW]
+            if dwrs:
+                break
+        if not dwrs:
+            return [], [("setup", "no DWR within 8 turns")]
+        due = io.deadline
+        ex = sched.Explorer(decisions)
+        sched.attach(w.k, ex)
+
+        def feeder():
+            w.k.block(lambda: False, timeout=50)
+            w.feed_msg(c, {"k": "DWA", "host": "peer1.example", "hbh": dwrs[0].h["hbh"], "e2e": dwrs[0].h["e2e"]}, run=False)
+        w.k.spawn(feeder, name="feeder")
+        w.k.run()
+        [t for t in w.k.threads if t.name == "feeder"][0].deadline = due
+        ex.armed = True
+        w.k.advance(due - w.k.now)
+        ex.armed = False
+        w.k.run()
+        w.advance(1)
+        problems = []
+        if c.node_closed:
+            peer = w.node.peers["peer1.example"]
+            problems.append(("closed-although-dwa-arrived", f"the DWA came {due - dwrs[0].t:g}s after the DWR (timeout 20 s), yet the connection was closed, "
+                             f"disconnect reason {peer.disconnect_reason:#x}"))
+        for sig, d in W.monitor_threads(w):
+            problems.append((f"thread-died/{sig}", d))
+        return ex.trace, problems, 1
+    finally:
+        w.close()
+
+
 def schedule_part(rec, shard, nshards, thorough):
     from dv import sched
     from dv.common import fp
@@ -308,6 +363,22 @@ def schedule_part(rec, shard, nshards, thorough):
                  ["schedule-exploration", f"stray-dwa:dwr-in-turn:{holder['dwrs']}", f"deviations:{len(dec)}"],
                  sample=lambda: dict(case, choice_points=len(trace)))
     rec.extra["stray_dwa_schedules"] = rec.extra.get("stray_dwa_schedules", 0) + n
+    install_points_timer()
+    holder2 = {}
+
+    def run_two(dec):
+        out = dwa_vs_timer(dec)
+        holder2["last"] = out[1]
+        return out[0]
+    n2 = 0
+    for dec, trace in sched.enumerate_schedules(run_two, 3 if thorough else 2, shard, nshards):
+        case = {"dwa_vs_timer": True, "schedule": {str(i): c for i, c in sorted(dec.items())}}
+        for kind, detail in holder2["last"]:
+            rec.violation(f"C11/dwa-vs-timer/{kind}", case, detail)
+        n2 += 1
+        rec.case(fp("sched-timer", tuple(sorted(dec.items()))) if dec else None,
+                 ["schedule-exploration", "dwa-vs-timer", f"deviations:{len(dec)}"], sample=lambda: dict(case, choice_points=len(trace)))
+    rec.extra["dwa_vs_timer_schedules"] = rec.extra.get("dwa_vs_timer_schedules", 0) + n2
     sched.clear()
 
 
@@ -373,13 +444,23 @@ def run(tier, scale=1.0):
     rec = Recorder(PID)
     for d in hyp.pool_run(shard_main, (tier, scale)):
         rec.merge(d)
-    required = {"schedule-exploration": 1, "stray-dwa:dwr-in-turn:1": 1, "prelude:dpr": 1, "prelude:close": 1, "dwa-result:3004": 1, "dwa-result:none": 1, "identity:respelled": 1, "fragment": 1, "tx-blocked": 1, "dir:in": 1, "dir:out": 1, "episodes:2": 1, "closed-by-watchdog": 1, "peer-idle:True": 1,
+    required = {"dwa-vs-timer": 1, "schedule-exploration": 1, "stray-dwa:dwr-in-turn:1": 1, "prelude:dpr": 1, "prelude:close": 1, "dwa-result:3004": 1, "dwa-result:none": 1, "identity:respelled": 1, "fragment": 1, "tx-blocked": 1, "dir:in": 1, "dir:out": 1, "episodes:2": 1, "closed-by-watchdog": 1, "peer-idle:True": 1,
                 "peer-dwa:True": 1, "outcomes:2": 1}
     return finish(rec, tier=tier, level="exploration", rule=RULE, assumptions=ASSUME, t0=t0,
                   required_classes=required)
 
 
 def replay(doc):
+    if doc["case"].get("dwa_vs_timer"):
+        install_points_timer()
+        problems = dwa_vs_timer({int(i): c for i, c in doc["case"]["schedule"].items()})[1]
+        sigs = [f"C11/dwa-vs-timer/{k}" for k, _ in problems]
+        if doc["signature"] in sigs:
+            print(f"  replayed: {problems[0][1][:300]}")
+            print(f"VIOLATION property={PID} replay=(replay)")
+            return 1
+        print(f"[{PID}] replay: signature {doc['signature']} does not reproduce (got {sigs})")
+        return 0
     if doc["case"].get("stray_dwa_vs_watchdog"):
         install_points()
         problems = stray_dwa_vs_watchdog({int(i): c for i, c in doc["case"]["schedule"].items()})[1]
